@@ -50,21 +50,24 @@ Record cfg := {
   fix_dryinit : bool; (* dry run into an uninitialised destination job does not list it        *)
   fix_ignore : bool;  (* dircmp(..., ignore=[]): names of filecmp.DEFAULT_IGNORES are synchronised *)
   fix_implicit : bool;(* the two implicit exclude patterns are escaped and anchored              *)
-  fix_shared : bool   (* ByKey keeps its skipped keys per call (thread pool) and clear() is gated   *)
+  fix_shared : bool;  (* ByKey keeps its skipped keys per call (thread pool) and clear() is gated   *)
+  fix_own : bool;     (* only the job's OWN state point / document (top level) are left out (2602a0e) *)
+  fix_funny : bool    (* a file on one side and a directory on the other raises FileSyncConflict (4239e5d) *)
 }.
 
 (* /repo at the current head: F3 (9f55003), F5 (0ec1e88), F4 (6b3ddc7), F16 + root (7de64dd), dryinit
    (402f6f3), ignore (0fb80cd), implicit (af70570), ByKey conflicts per call + gated clear() (c3330a7) are
-   and exclude patterns inside copytree / cloned jobs (74ea1a0) are repaired: every switch is on, cfg_current
-   and cfg_fixed coincide; the switches remain as the record of what each repair changed *)
+   exclude patterns inside copytree / cloned jobs (74ea1a0), own files only at the top level (2602a0e) and
+   file / directory clashes (4239e5d) are repaired: every switch is on, cfg_current and cfg_fixed coincide (the
+   repairs 17ddeb7 — caller's exclude list — and 23d4b64 — filecmp's cache — concern state the model never had); the switches remain as the record of what each repair changed *)
 Definition cfg_current : cfg :=
   {| fix_F3 := true; fix_F4 := true; fix_F5 := true; fix_F16 := true; fix_root := true;
      fix_excl := true; fix_dryinit := true; fix_ignore := true; fix_implicit := true;
-     fix_shared := true |}.
+     fix_shared := true; fix_own := true; fix_funny := true |}.
 Definition cfg_fixed : cfg :=
   {| fix_F3 := true; fix_F4 := true; fix_F5 := true; fix_F16 := true; fix_root := true;
      fix_excl := true; fix_dryinit := true; fix_ignore := true; fix_implicit := true;
-     fix_shared := true |}.
+     fix_shared := true; fix_own := true; fix_funny := true |}.
 
 (* ------------------------------------------------------------------ options *)
 Inductive fstrategy :=
@@ -72,7 +75,8 @@ Inductive fstrategy :=
 | FS_custom (f : str -> bool).            (* verdict as a function of the path relative to the job *)
 
 Inductive docsync :=
-| DS_bykey (ks : option (str -> bool))    (* key strategy: predicate / regex as a function of the dotted name *)
+| DS_bykey (ks : option (str -> option bool))   (* key strategy: predicate / regex as a function of the dotted
+                                                   name; None = the callback raises (KeyboardInterrupt, SystemExit) *)
 | DS_update | DS_nosync | DS_copy.
 
 Record opts := {
@@ -83,13 +87,20 @@ Record opts := {
   o_selection : option (list str);        (* {str(j) for j in selection} *)
   o_check_schema : bool;
   o_deep : bool;
-  o_dry_run : bool
+  o_dry_run : bool;
+  o_top : bool                            (* not a user option: the walk is at the top level of the job directory
+                                             (`not subdir`); true at every entry point *)
 }.
 
 Definition set_dry (o : opts) (b : bool) : opts :=
   {| o_strategy := o_strategy o; o_docsync := o_docsync o; o_recursive := o_recursive o;
      o_exclude := o_exclude o; o_selection := o_selection o; o_check_schema := o_check_schema o;
-     o_deep := o_deep o; o_dry_run := b |}.
+     o_deep := o_deep o; o_dry_run := b; o_top := o_top o |}.
+
+Definition set_top (o : opts) (b : bool) : opts :=
+  {| o_strategy := o_strategy o; o_docsync := o_docsync o; o_recursive := o_recursive o;
+     o_exclude := o_exclude o; o_selection := o_selection o; o_check_schema := o_check_schema o;
+     o_deep := o_deep o; o_dry_run := o_dry_run o; o_top := b |}.
 
 (* ------------------------------------------------------------------ constants *)
 Definition FN_SP : str := [115;105;103;110;97;99;95;115;116;97;116;101;112;111;105;110;116;46;106;115;111;110]%N.
@@ -304,9 +315,22 @@ Section Model.
   (* ---------------------------------------------------------------- sync_jobs: exclude list *)
   Definition implicit_match (pat n : str) : bool :=
     if fix_implicit cf then str_eqb pat n else re_match_lit pat n.
+  (* the job's own files: the state point, and the document unless documents are copied like files *)
+  Definition own_file (o : opts) (n : str) : bool :=
+    str_eqb FN_SP n || match o_docsync o with DS_copy => false | _ => str_eqb FN_DOC n end.
+
+  (* `_skip(fn)`: a user pattern matches, or — at the top level of the job only — it is one of the job's own
+     files.  Before 2602a0e the two names were appended to the pattern list and hence skipped at every depth. *)
   Definition excluded (o : opts) (n : str) : bool :=
-    o_exclude o n || implicit_match FN_SP n
-    || match o_docsync o with DS_copy => false | _ => implicit_match FN_DOC n end.
+    if fix_own cf then o_exclude o n || (o_top o && own_file o n)
+    else o_exclude o n || implicit_match FN_SP n
+         || match o_docsync o with DS_copy => false | _ => implicit_match FN_DOC n end.
+
+  (* what copytree's ignore function sees for a left-only directory: the pattern list *)
+  Definition tree_excl (o : opts) (n : str) : bool :=
+    if fix_own cf then o_exclude o n
+    else o_exclude o n || implicit_match FN_SP n
+         || match o_docsync o with DS_copy => false | _ => implicit_match FN_DOC n end.
 
   (* ---------------------------------------------------------------- _sync_job_workspaces *)
   Fixpoint sync_ws (fuel : nat) (o : opts) (deep : bool) (sdir ddir : dir) (subdir : str) : wstate :=
@@ -321,7 +345,7 @@ Section Model.
           else match alookup n sdir with
                | Some (File c _) => copy_file dry n c d
                | Some (Dir es) =>
-                   if o_recursive o then copy_tree (excluded o) dry n (Dir es) d else (d, None)
+                   if o_recursive o then copy_tree (tree_excl o) dry n (Dir es) d else (d, None)
                | None => (d, None)
                end in
         let step2 (n : str) (d : dir) : wstate :=
@@ -339,7 +363,7 @@ Section Model.
           if o_recursive o then
             match alookup n sdir, alookup n d with
             | Some (Dir ses), Some (Dir des) =>
-                let '(des', e) := sync_ws fuel' o deep ses des (join subdir n) in
+                let '(des', e) := sync_ws fuel' (set_top o false) deep ses des (join subdir n) in
                 (aset n (Dir des') d, e)
             | _, _ => (d, None)
             end
@@ -347,7 +371,12 @@ Section Model.
         match run_steps step1 (of_cls LeftOnly) ddir with
         | (d1, None) =>
             match run_steps step2 (of_cls Diff) d1 with
-            | (d2, None) => run_steps step3 (of_cls SubDir) d2
+            | (d2, None) =>
+                (* 4239e5d: a name that is a file on one side and a directory on the other cannot be
+                   synchronised: FileSyncConflict, whatever the strategy *)
+                if fix_funny cf && existsb (fun n => negb (excluded o n)) (of_cls Funny)
+                then (d2, Some EFileSyncConflict)
+                else run_steps step3 (of_cls SubDir) d2
             | r => r
             end
         | r => r
@@ -363,11 +392,15 @@ Section Model.
   (* F16: dst[key] of a _DocProxy is the raw synced dict, so nested writes are not gated *)
   Definition nested_dry (dry : bool) : bool := if fix_F16 cf then dry else false.
 
-  Definition selected (ks : option (str -> bool)) (name : str) : bool :=
-    match ks with None => false | Some f => f name end.
+  Definition selected (ks : option (str -> option bool)) (name : str) : bool :=
+    match ks with Some f => match f name with Some b => b | None => false end | None => false end.
+  (* the key strategy callback does not return: it raises a BaseException (an interactive strategy
+     interrupted with Ctrl-C, sys.exit() in a callback); reported as EOther *)
+  Definition ks_raises (ks : option (str -> option bool)) (name : str) : bool :=
+    match ks with Some f => match f name with None => true | Some _ => false end | None => false end.
 
   (* ByKey.__call__(src, dst, root); returns the destination value, the skipped keys, an exception *)
-  Fixpoint bykey (ks : option (str -> bool)) (sv dv : json) (root : str) (dry : bool)
+  Fixpoint bykey (ks : option (str -> option bool)) (sv dv : json) (root : str) (dry : bool)
            (sk : list str) {struct sv} : json * list str * option exn :=
     match sv with
     | JObj skvs =>
@@ -395,7 +428,8 @@ Section Model.
                                  | None => loop rest d' sk'
                                  end
                              | _ =>
-                                 if selected ks (root ++ k) then loop rest (pset dry k v d) sk
+                                 if ks_raises ks (root ++ k) then (d, sk, Some EOther)
+                                 else if selected ks (root ++ k) then loop rest (pset dry k v d) sk
                                  else loop rest d ((root ++ k) :: sk)
                              end
                        | None => loop rest (pset dry k v d) sk
@@ -409,7 +443,7 @@ Section Model.
     | _ => (dv, sk, None)
     end.
 
-  Definition bykey_top (ks : option (str -> bool)) (sdoc ddoc : kvs) (dry : bool) : kvs * option exn :=
+  Definition bykey_top (ks : option (str -> option bool)) (sdoc ddoc : kvs) (dry : bool) : kvs * option exn :=
     let '(d, sk, e) := bykey ks (JObj sdoc) (JObj ddoc) [] dry [] in
     let d' := match d with JObj x => x | _ => ddoc end in
     match e with
@@ -499,7 +533,7 @@ Section Model.
             (* dry run into an uninitialised job: dircmp lists a missing directory -> FileNotFoundError *)
             if fix_dryinit cf then (None, None) else (None, Some EOSError)
         | Some ddir =>
-            let '(d1, e1) := sync_ws (S (depth (Dir sdir))) o deep sdir ddir [] in
+            let '(d1, e1) := sync_ws (S (depth (Dir sdir))) (set_top o true) deep sdir ddir [] in
             match e1 with
             | Some _ => (Some d1, e1)
             | None => let '(d2, e2) := sync_doc o FN_DOC sdir d1 in (Some d2, e2)
@@ -572,7 +606,7 @@ Section Model.
     let '(id, n) := kn in
     match n, alookup id ws with
     | Dir sdir, Some (Dir ddir) =>
-        let '(d1, e1) := sync_ws (S (depth (Dir sdir))) o (proj_deep o) sdir ddir [] in
+        let '(d1, e1) := sync_ws (S (depth (Dir sdir))) (set_top o true) (proj_deep o) sdir ddir [] in
         match e1 with
         | Some _ => (aset id (Dir d1) ws, e1)
         | None => let '(d2, e2) := sync_doc_spurious o FN_DOC sdir d1 in (aset id (Dir d2) ws, e2)
